@@ -446,6 +446,8 @@ func (x Expr) Has(data any) bool {
 					}
 				}
 			} else {
+				// A sibling that shares the marker has to be expanded as well.
+				stack[len(stack)-1] = di &^ descentFlag
 				stack = append(stack, prev)
 			}
 		case Root:
